@@ -46,6 +46,9 @@ structure State where
   umask : Nat := 0
   fns : List (List Char × Bool) := []          -- function name ↦ read-only
   opts : List (List Char × Bool) := []         -- options set explicitly (`set ±o name`), newest last
+  /-- signals ignored on entry to the (non-interactive) shell: `TrapSet::set_action` refuses to change them
+      (`SetActionError::InitiallyIgnored`, which the built-in does not even report) -/
+  entryIgnored : List String := []
 
 /-! ### definition commands -/
 
@@ -80,6 +83,11 @@ def State.setTrap (s : State) (cond : String) (action : List Char) : State :=
   let rest := s.traps.filter (·.1 ≠ cond)
   -- every `set_action` first clears all remembered parent states
   { s with traps := if action = ['-'] then rest else rest ++ [(cond, action)], parentCmds := [] }
+
+/-- the `trap` built-in in a non-interactive shell: a signal that was ignored on entry is left alone
+    (`SetActionError::InitiallyIgnored`; trap.rs `main` drops that error without a message) -/
+def State.setTrapCmd (s : State) (cond : String) (action : List Char) : State :=
+  if s.entryIgnored.contains cond then s else s.setTrap cond action
 
 /-- `TrapSet::enter_subshell` (yash-env/src/trap/state.rs `GrandState::enter_subshell`), for EVERY
     condition — signals and EXIT alike: a command action is remembered in `parent_state` and reset to the
@@ -649,11 +657,15 @@ def applyOp (s : State) (op : String) : Option State :=
     else (applySymbolic m.toList (511 - s.umask % 512)).map fun allowed => { s with umask := 511 - allowed }
   | ["l", n, v] => do pure (s.setAlias (← decChars n) (← decChars v))
   | ["lg", n, v] => do pure (s.setAlias (← decChars n) (← decChars v))
-  | ["t", c, a] => do pure (s.setTrap c (← decChars a))
+  | ["ti", c] =>
+    -- ignored on entry: shown as an ignored trap (`peek_state` reads the inherited disposition)
+    if c = "EXIT" || !condOrder.contains c then none
+    else some { s with traps := s.traps.filter (·.1 ≠ c) ++ [(c, [])], entryIgnored := c :: s.entryIgnored }
+  | ["t", c, a] => do pure (s.setTrapCmd c (← decChars a))
   | ["tn", c, n, a] =>
     -- the condition was given by NUMBER: it must be the number the sources give that name (0 = EXIT)
     if (c = "EXIT" && n = "0") || (Generated.ListingTables.virtualSignals.any fun p => p.1 = c && toString p.2 = n)
-    then do pure (s.setTrap c (← decChars a)) else none
+    then do pure (s.setTrapCmd c (← decChars a)) else none
   | ["m", m] => (parseOctal3 m.toList).map fun u => { s with umask := u }
   | ["o", o, st] => some (s.setOpt o.toList (st = "1"))
   | [k, n, _] => if k = "f" || k = "fq" || k = "fk" then do pure (s.setFn (← decChars n) false) else none
@@ -668,6 +680,6 @@ def runL (ops : List String) : String :=
   | none => "bad-case\t-"
   | some s =>
     let e (l : List Char) := encChars l
-    s!"A={e (listAlias s)} V={e (listTypeset s)} X={e (listExport s)} R={e (listReadonly s)} S={e (listSet s)} T={e (listTrap s)} U={e (listUmask s)} O={e (listSetO s)} Ao={e (listAliasOperands s)} Vo={e (listTypesetOperands s)} Tc={e (listTrapP s)} Oh={e (listSetOHuman s)} Us={e (listUmaskS s)} Ts={e (listTrap s.enterSubshell)} Tk={e (listTrap s.enterSubshell)} Tq={e (listTrap s.enterSubshell)} As={e (listAlias s)} Vs={e (listTypeset s)} Os={e (listSetO s)} Cv={e (listCommandV s)} Fa={e (listFnAttr s)}\t{if stateVerdict s != "ok" then stateVerdict s else textVerdict s}"
+    s!"A={e (listAlias s)} V={e (listTypeset s)} X={e (listExport s)} R={e (listReadonly s)} S={e (listSet s)} T={e (listTrap s)} U={e (listUmask s)} O={e (listSetO s)} Ao={e (listAliasOperands s)} Vo={e (listTypesetOperands s)} Tc={e (listTrapP s)} Oh={e (listSetOHuman s)} Us={e (listUmaskS s)} Ts={e (listTrap s.enterSubshell)} Tk={e (listTrap s.enterSubshell)} Tq={e (listTrap s.enterSubshell)} As={e (listAlias s)} Vs={e (listTypeset s)} Os={e (listSetO s)} Cv={e (listCommandV s)} Am={e (listAliasOperands s)} Vm=- Xm=- Rm=- Fm=- Fa={e (listFnAttr s)}\t{if stateVerdict s != "ok" then stateVerdict s else textVerdict s}"
 
 end YashModel.Quote.Listing
